@@ -47,8 +47,8 @@ class Graph:
 
 # ------------------------------------------------------------------ codec
 def encode_gr(g, version=None, v2pad=False):
-    """v2pad: write the 8-byte pad word after an odd number of 64-bit destinations (what
-    FileGraph::fromMem expects); default is the documented layout (no pad in version 2)."""
+    """Version 2 has no pad word after the 64-bit destinations (v2pad=True writes one: an INVALID file, kept only
+    for negative tests)."""
     version = version or g.version
     m = g.m()
     out = [struct.pack("<QQQQ", version, g.width, g.n, m)]
@@ -77,7 +77,7 @@ def encode_gr(g, version=None, v2pad=False):
 
 
 def decode_gr(b, allow_trailing=False):
-    """Decode and fully validate; version 2 padding is decided by the file length. allow_trailing: a version-1 file
+    """Decode and fully validate (version 2: no pad word). allow_trailing: a version-1 file
     longer than its header says is decoded from its prefix (Graph.trailing = number of extra bytes)."""
     if len(b) < 32:
         raise GrError("file shorter than the 32-byte header (%d bytes)" % len(b))
@@ -111,10 +111,11 @@ def decode_gr(b, allow_trailing=False):
         if rest == data:
             pad = 0
         elif m % 2 and rest - 8 == data:
-            pad = 8
+            raise GrError("version 2: length %d = header + 8: a pad word after the destinations (the version 2 layout "
+                          "has none; expected %d bytes)" % (len(b), base + data))
         else:
-            raise GrError("version 2: length %d matches neither padding convention (expected %d%s)" %
-                          (len(b), base + data, (" or %d" % (base + 8 + data)) if m % 2 else ""))
+            raise GrError("version 2: length %d does not match header (expected %d; n=%d m=%d esz=%d)" %
+                          (len(b), base + data, n, m, esz))
     g = Graph(n, esz, version)
     g.pad = pad
     idx = struct.unpack_from("<%dQ" % n, b, 32)
